@@ -147,8 +147,25 @@ def fresh(kind, name, st, newref, origin='fresh', record=None):
             else:
                 shape.append(s)
         sort = z3sort(kind.elem)
-        f = z3.Function(name, *([z3.IntSort()] * len(shape) + [sort]))
         dt = {'KReal': 'real', 'KInt': 'int', 'KBool': 'bool'}.get(type(kind.elem).__name__, 'obj')
+        if len(shape) == 1 and isinstance(shape[0], int) and 2 < shape[0] <= 64:
+            # small fixed-size vector: one constant per cell (case analysis instead of an uninterpreted function)
+            cells = [z3.Const('%s[%d]' % (name, k), sort) for k in range(shape[0])]
+
+            def at(i, cells=cells):
+                if isinstance(i, int):
+                    return cells[i]
+                ic = concrete(i)
+                if ic is not None:
+                    return cells[int(ic)]
+                r = cells[-1]
+                for k in range(len(cells) - 2, -1, -1):
+                    r = z3.If(i == k, cells[k], r)
+                return r
+            if record is not None:
+                record[name] = ('list', [('scalar', c, kind.elem) for c in cells])
+            return newref(st, ArrV(shape, at, dt, origin))
+        f = z3.Function(name, *([z3.IntSort()] * len(shape) + [sort]))
         arr = ArrV(shape, lambda *i, f=f: f(*[to_z3(x) for x in i]), dt, origin)
         if record is not None:
             record[name] = ('array', f, shape, kind)
